@@ -213,6 +213,49 @@ def run(F, chk):
             re_.ok(key, b.where(bi), "followed by request_counted=true on every path")
         else:
             re_.violation(key, b.where(bi), "http.active_requests is incremented on a path that never sets request_counted: the matching -1 is skipped and the gauge drifts upward")
+    tracking_wipe_rule(F, chk)
+
+
+def tracking_wipe_rule(F, chk):
+    """R-C16-f: the per-(cluster, source IP) slots are held by live sessions.  Wiping the whole table
+    (SessionManager::clear_cluster_ip_tracking) while the limit stays in force lets every source open `limit` more
+    connections on top of the ones it still holds.  The wipe is therefore allowed only where the limit is being
+    disabled: every call site lies behind an `== 0` edge of the new limit."""
+    r = chk.rule("R-C16-f", "T5", "the per-IP tracking table is wiped only when the limit is disabled", floor=1)
+    sites = [x for x in F.call_sites(SM + "::clear_cluster_ip_tracking") if "::tests::" not in x[0].path and not x[0].path.endswith("tests")]
+    if not r.require(sites, "no call of SessionManager::clear_cluster_ip_tracking found"):
+        return
+    for i, (b0, bi0, t0) in enumerate(sites):
+        b = lib.flat(F, b0, keep=("::clear_cluster_ip_tracking",))
+        calls = [bi for bi, t in b.calls() if callee_of(t) == SM + "::clear_cluster_ip_tracking"]
+        r.fn(b.path)
+        edges = []
+        # "the limit": whatever is stored into SessionManager.max_connections_per_ip here (or read back from it)
+        lim = set()
+        for x, si, st in b.stmts():
+            lhs = st.get("lhs")
+            if isinstance(lhs, dict) and proj_fields(lhs) and proj_fields(lhs)[-1][2] == "max_connections_per_ip" and st["rv"]["k"] == "use":
+                lim |= guards.slice_of_operand(b, st["rv"]["a"])["locals"]
+        is_lim = lambda sl: bool(sl["locals"] & lim) or any(fl == "max_connections_per_ip" for _, fl in sl["fields"])
+        for sb, f, t, atom in guards.bool_switches(b):
+            if atom[0] != "cmp":
+                continue
+            for tgt in (f, t):
+                rel = lib.relation_on_edge(b, sb, tgt)
+                if not rel:
+                    continue
+                op, sa, sbb, _ = rel
+                za = any(str(c).startswith("0_") for c in sa["consts"]) and not sa["locals"]
+                zb = any(str(c).startswith("0_") for c in sbb["consts"]) and not sbb["locals"]
+                la, lb = is_lim(sa), is_lim(sbb)
+                if op == "Eq" and ((la and zb) or (lb and za)):
+                    edges.append((sb, tgt))
+        for j, c in enumerate(calls):
+            key = "%s|wipe#%d behind limit == 0" % (b.path, j)
+            if edges and lib.guarded_by(b, c, edges):
+                r.ok(key, b.where(c), "only on the `limit == 0` edge")
+            else:
+                r.violation(key, b.where(c), "clear_cluster_ip_tracking() is reachable while a non-zero per-IP limit stays in force: the slots held by live connections are forgotten and each source can open `limit` more")
 
 
 def run_thorough(F, chk):
